@@ -3,6 +3,7 @@ import Driver.GenCmds
 import Driver.NumCmds
 import Driver.MemCmds
 import Driver.LitCmds
+import Driver.EmitCmds
 
 open Driver
 
@@ -24,13 +25,14 @@ def handle (line : String) : String :=
   | some r => r
   | none => "err unknown-command"
 
-partial def loop (h : IO.FS.Stream) (out : IO.FS.Stream) : IO Unit := do
+partial def loop (h : IO.FS.Stream) (out : IO.FS.Stream) (sess : EmitSession) : IO Unit := do
   let line ← h.getLine
   if line.isEmpty then return ()
-  out.putStrLn (handle line)
-  loop h out
+  match emitCmd sess (words line) with
+  | some (sess', r) => out.putStrLn r; loop h out sess'
+  | none => out.putStrLn (handle line); loop h out sess
 
 def main : IO Unit := do
   let out ← IO.getStdout
-  loop (← IO.getStdin) out
+  loop (← IO.getStdin) out {}
   out.flush
